@@ -20,6 +20,8 @@
  *   ops   C        create the client session (starts the handshake)
  *         qc<k> qn<k>   client sends Confirmable / Non-confirmable request number k (POST /secretpath)
  *         bm       client context in COAP_BLOCK_USE_LIBCOAP mode (before C)
+ *         xt       client context with extended tokens: coap_context_set_max_token_size(16) (before C)
+ *         ka<s>    client keep-alive every s seconds (before C)
  *         qo<k>    Confirmable FETCH with Observe: 0 (tracked in session->lg_crcv)
  *         ns<k>    set NSTART of the client session
  *         mh<k>    server: coap_context_set_max_handshake_sessions(k)
@@ -280,6 +282,43 @@ static void deliver(size_t i) {
   vn_route(i);
 }
 
+/* ------------------------------------------------------------------ the wait inside coap_send
+ * With extended tokens (or Q-Block) enabled the first coap_send() of a client session sends a
+ * probe and waits for its answer in coap_client_delay_first(), i.e. in a loop around
+ * coap_io_process_lkd(client context).  In this one-thread driver that loop is served from the
+ * scripted network: every pending datagram is delivered in order; when nothing is pending any
+ * more the wait is made to time out. */
+static int g_in_send, g_wait_idle;
+void __real_coap_io_do_epoll(coap_context_t *ctx, struct epoll_event *events, size_t nevents);
+void __wrap_coap_io_do_epoll(coap_context_t *ctx, struct epoll_event *events, size_t nevents) {
+  if (g_in_send)
+    coap_io_do_epoll_lkd(ctx, events, nevents);     /* the global lock is already ours */
+  else
+    __real_coap_io_do_epoll(ctx, events, nevents);
+}
+int __real_coap_io_process_lkd(coap_context_t *ctx, uint32_t timeout_ms);
+int __wrap_coap_io_process_lkd(coap_context_t *ctx, uint32_t timeout_ms) {
+  if (!(g_in_send && ctx == g_cli))
+    return __real_coap_io_process_lkd(ctx, timeout_ms);
+  scan_wire();
+  if (g_npend) {
+    int guard = 0;
+    g_wait_idle = 0;
+    while (g_npend && guard++ < 400) {
+      size_t i = g_pend[0];
+      pend_pop();
+      deliver(i);
+      scan_wire();
+    }
+    return 1;
+  }
+  if (++g_wait_idle > 2) {
+    tg_emit("c.wt:1");
+    return 6000;
+  }
+  return 1;
+}
+
 static void snapshot(void) {
   coap_session_t *ss[2] = {g_cs, g_ss};
   for (int w = 0; w < 2; w++) {
@@ -471,6 +510,11 @@ static void run_case(void) {
         coap_address_copy(&g_caddr, &g_cs->addr_info.local);
         g_have_caddr = 1;
       }
+    } else if (strcmp(op, "xt") == 0) {
+      /* client: RFC 8974 extended tokens (the first request is preceded by a probe) */
+      coap_context_set_max_token_size(g_cli, 16);
+    } else if (op[0] == 'k' && op[1] == 'a') {
+      coap_context_set_keepalive(g_cli, (unsigned)atoi(op + 2));
     } else if (strcmp(op, "bm") == 0) {
       /* client: let libcoap do block-wise transfers (requests are then tracked in lg_crcv) */
       coap_context_set_block_mode(g_cli, COAP_BLOCK_USE_LIBCOAP);
@@ -496,7 +540,10 @@ static void run_case(void) {
         g_req[k].con = op[1] != 'n';
         memcpy(g_req[k].tok, tok, tl);
         g_req[k].tl = tl;
+        g_in_send = 1;
+        g_wait_idle = 0;
         coap_mid_t m = coap_send(g_cs, p);
+        g_in_send = 0;
         tg_emit("a.q:%d:%c%d:%d", k, op[1] != 'n' ? 'C' : 'N', (int)g_req[k].mid, (int)m);
       } else
         tg_emit("a.q:%d:skip", k);
